@@ -13,6 +13,7 @@ inductive Leaf where
   | kind (k : Kind)
   | redirect (code : Int) (to : String)
   | foreign
+  | ctxDone (c : CtxErr)
 deriving DecidableEq, Repr
 
 mutual
@@ -21,6 +22,7 @@ mutual
     | .kind k => [.kind k]
     | .redirect c t => [.redirect c t]
     | .foreign => [.foreign]
+    | .ctxDone c => [.ctxDone c]
     | .wrap e => e.leaves
     | .join es => Err.leavesAny es
     | .chain es => Err.leavesAny es
@@ -49,6 +51,7 @@ def Leaf.action : Leaf → Action
   | .kind k => k.action
   | .redirect _ _ => .redirect
   | .foreign => .respond .internal
+  | .ctxDone _ => .respond .internal
 
 /-- precedence between the classes when an error value mixes several kinds -/
 def priority : List Action :=
@@ -62,6 +65,15 @@ def Err.action (e : Err) : Action :=
 def Err.admissible (e : Err) : List Action :=
   let as := (e.leaves.map Leaf.action).filter (fun a => a != .respond .internal)
   if as.isEmpty then [.respond .internal] else as
+
+/-- is the leaf one of the errors of package `context` -/
+def Leaf.isCtxDone : Leaf → Bool
+  | .ctxDone _ => true
+  | _ => false
+
+/-- the failures a value consists of, the `context` errors left out: what is left of a value when "the context of
+the request was done" is deleted wherever it occurs (as cause at the end of a chain, wrapped by `*url.Error`, joined) -/
+def Err.essential (e : Err) : List Leaf := e.leaves.filter fun l => !l.isCtxDone
 
 def isSuccess (status : Int) : Bool := 200 ≤ status && status < 300
 
